@@ -128,3 +128,15 @@ Definition irregular_types : list string := [
   "types.V2FileContractResolution"; "types.V2Transaction"; "types.V2TransactionSemantics"; "types.V2TransactionsMultiproof";
   "types.V2BlockData_placeholder"
 ].
+
+(* ---- consensus.State and ElementAccumulator: irregular layouts, pinned as executable definitions ----
+   State: index, then the min(childHeight, 11) timestamps actually used (childHeight wraps to 0 for the pre-genesis
+   state at height 2^64-1), the fixed proof-of-work / tax / foundation fields, the accumulator, the attestation count.
+   ElementAccumulator: the leaf count and one root per set bit of it. *)
+Definition state_timestamps (height : N) : N := N.min ((height + 1) mod 2 ^ 64) 11.
+Fixpoint popcount_fuel (fuel : nat) (n : N) : N :=
+  match fuel with O => 0 | S f => (n mod 2) + popcount_fuel f (n / 2) end.
+Definition popcount64 (n : N) : N := popcount_fuel 64 n.
+Definition accumulator_len (num_leaves : N) : N := 8 + 32 * popcount64 num_leaves.
+Definition state_len (height num_leaves : N) : N :=
+  (8 + 32) + 8 * state_timestamps height + 32 + 32 + 16 + 8 + 32 + 32 + 32 + 32 + 32 + 32 + accumulator_len num_leaves + 8.
